@@ -309,7 +309,7 @@ impl Check for C04 {
         let w = 16 + rng.below(100) as u32;
         Scn {
             setup: Setup {
-                image: Image { bytes, stack, limit: Some(0xFF) },
+                image: Image { bytes, stack, limit: Some(0xFF), keep_limit: false },
                 regs: Some(regs),
                 pokes: vec![],
                 inputs: [rng.u8(), rng.u8(), rng.u8(), rng.u8()],
